@@ -147,7 +147,7 @@ func (g *gen) genDecl(i int) {
 		}
 		if t.Chance(1, 10) && i > 0 {
 			// embedded earlier struct
-			for j := i - 1; j >= 0; j-- {
+			for j := len(w.Decls) - 1; j >= 0; j-- {
 				if w.Decls[j].Struct && w.Decls[j] != d && !embeds(d, w.Decls[j].Name) {
 					d.Fields = append(d.Fields, Field{Name: w.Decls[j].Name, Ty: Named("", w.Decls[j].Name), Embedded: true})
 					break
